@@ -39,6 +39,9 @@ fn profile(name: &str) -> Profile {
         // sequential (identity) or constant hasher the occupied slots form one
         // dense run that wanders through the table, so tombstones pile up
         "fifo" => Profile { universe: 24, kheaps: vec![0], vmax: 4, fit: 20, caps: vec![0, 3], calm: 1.0 },
+        // thousands of entries; only run with --selfcheck (structural facets evaluated by the
+        // harness on the real state, no TLC: the events would be megabytes each)
+        "huge" => Profile { universe: 6000, kheaps: vec![0, 3], vmax: 40, fit: 4500, caps: vec![0, 64, 3000], calm: 0.999 },
         "large" => Profile { universe: 400, kheaps: vec![0, 4], vmax: 50, fit: 300, caps: vec![0, 64, 500], calm: 0.985 },
         _ => Profile { universe: 12, kheaps: vec![0, 2, 5], vmax: 16, fit: 8, caps: vec![0, 1, 3, 7, 14], calm: 0.3 }
     }
@@ -59,13 +62,19 @@ fn main() {
     let crash_rate: f64 = arg(&args, "--crash-rate").and_then(|s| s.parse().ok()).unwrap_or(0.0);
     let forget_rate: f64 = arg(&args, "--forget-rate").and_then(|s| s.parse().ok()).unwrap_or(0.0);
     let segment: u64 = arg(&args, "--segment").and_then(|s| s.parse().ok()).unwrap_or(400);
+    // --selfcheck N: project every N-th step only and evaluate the self-consistency facets
+    // in place of logging events for TLC
+    let selfcheck: u64 = arg(&args, "--selfcheck").and_then(|s| s.parse().ok()).unwrap_or(0);
+    let mut self_failures: Vec<Value> = Vec::new();
+    let mut self_checked = 0u64;
     let cfg = Config {
         hasher: arg(&args, "--hasher").unwrap_or_else(|| "default".into()),
         keyform: if arg(&args, "--keyform").as_deref() == Some("borrowed") { KeyForm::Borrowed }
                  else { KeyForm::Owned },
         universe: prof.universe,
         seed,
-        full_hook: true
+        full_hook: true,
+        project_every: selfcheck.max(1)
     };
     let mut out = BufWriter::new(std::fs::File::create(arg(&args, "--events").expect("--events")).unwrap());
     let mut script = arg(&args, "--script-out").map(|p| BufWriter::new(std::fs::File::create(p).unwrap()));
@@ -221,7 +230,8 @@ fn main() {
             }
             else if r < 770 {
                 o = op("set_max_size", c);
-                let pick = if prof.calm > 0.5 && rng.gen_bool(0.7) { if rng.gen_bool(0.2) { 1 } else { 7 } }
+                let pick = if pname == "huge" { if rng.gen_bool(0.3) { 1 } else { 7 } }
+                           else if prof.calm > 0.5 && rng.gen_bool(0.7) { if rng.gen_bool(0.2) { 1 } else { 7 } }
                            else { rng.gen_range(0..8) };
                 let m: i64 = match pick {
                     0 => 0,
@@ -237,7 +247,8 @@ fn main() {
             }
             else if r < 800 {
                 o = op("retain", c);
-                let p: f64 = if calm { [0.7, 0.9, 0.95, 1.0][rng.gen_range(0..4)] }
+                let p: f64 = if pname == "huge" { [0.98, 0.995, 1.0, 1.0][rng.gen_range(0..4)] }
+                             else if calm { [0.7, 0.9, 0.95, 1.0][rng.gen_range(0..4)] }
                              else { [0.0, 0.2, 0.5, 0.8, 1.0][rng.gen_range(0..5)] };
                 let keep: Vec<u32> = present.iter().cloned().filter(|_| rng.gen_bool(p)).collect();
                 o["a"]["keep"] = json!(keep);
@@ -342,9 +353,31 @@ fn main() {
         let corrupt = ev["st"]["alive"] == true && ev["st"]["trav"] == false;
 
         *per_op.entry(name).or_default() += 1;
-        writeln!(out, "{}", ev).unwrap();
-        // the code under test may bring the process down: keep the log complete
-        out.flush().unwrap();
+
+        if selfcheck > 0 {
+            if ev["light"] != true {
+                self_checked += 1;
+                for (f, e, a) in self_facets(&ev) {
+                    if e != a && self_failures.len() < 20 {
+                        let clip = |v: &Value| { let s = v.to_string(); if s.len() > 300 { format!("{}...", &s[..300]) } else { s } };
+                        self_failures.push(json!({"step": ev["i"], "op": ev["a"]["op"], "facet": f,
+                            "expected": clip(&e), "actual": clip(&a), "len": ev["st"]["len"]}));
+                    }
+                }
+                if !ev["anom"].as_array().map(|v| v.is_empty()).unwrap_or(true) && self_failures.len() < 20 {
+                    self_failures.push(json!({"step": ev["i"], "op": ev["a"]["op"], "facet": "anom",
+                        "expected": "[]", "actual": ev["anom"].to_string()}));
+                }
+                // progress marker for the parent process
+                writeln!(out, "{}", json!({"i": ev["i"], "len": ev["st"]["len"], "cap": ev["st"]["cap"]})).unwrap();
+                out.flush().unwrap();
+            }
+        }
+        else {
+            writeln!(out, "{}", ev).unwrap();
+            // the code under test may bring the process down: keep the log complete
+            out.flush().unwrap();
+        }
         if let Some(w) = script.as_mut() { writeln!(w, "{}", o).unwrap(); }
 
         if corrupt {
@@ -365,5 +398,6 @@ fn main() {
     out.flush().unwrap();
     println!("{}", json!({"seed": seed, "steps": steps, "profile": pname, "hasher": cfg.hasher,
         "keyform": format!("{:?}", cfg.keyform), "per_op": per_op, "crashes": crashes,
-        "max_len": max_len, "max_buckets": max_buckets, "tombstone_states": tomb_states}));
+        "max_len": max_len, "max_buckets": max_buckets, "tombstone_states": tomb_states,
+        "selfcheck_projections": self_checked, "selfcheck_failures": self_failures}));
 }
